@@ -1,20 +1,48 @@
-"""C14 - tabular learners apply their textbook update to exactly one entry.  (draft)"""
+"""C14 - tabular learners apply their textbook update to exactly one entry.
+
+Functions under contract (real AST, interpreted):
+  rl_blox.util.error_functions.td_error
+  rl_blox.blox.value_policy.greedy_policy
+  rl_blox.algorithm.q_learning._update_policy        (+ call site in train_q_learning)
+  rl_blox.algorithm.sarsa._update_policy             (+ call site in train_sarsa)
+  rl_blox.algorithm.double_q_learning._dql_update    (+ call site in train_double_q_learning)
+  rl_blox.algorithm.monte_carlo.update / _update_body (jax.lax.fori_loop cut by induction)
+  rl_blox.algorithm.dynaq.q_learning_update / counter_update / model_update / planning
+                                                      (+ call site in train_dynaq)
+
+Every postcondition is transcribed from the PROPERTY STATEMENT (textbook rules),
+never from the code.  Tables are total functions (s, a) -> R of symbolic size
+S x A; states / actions are symbolic in-range integers.
+
+  TD learners :  Q'[s,a] == Q[s,a] + lr*(r + gamma*(1-terminated)*V_next - Q[s,a])
+                 forall (i,j) != (s,a).  Q'[i,j] == Q[i,j]
+     V_next = max_b Q[s',b]                              (Q-learning, Dyna-Q)
+            = Q[s',a']                                   (SARSA)
+            = Q_other[s', argmax_b Q_updated[s',b]]      (double Q-learning)
+  Monte-Carlo :  G = r_t + gamma*G_next;  n' = n + 1 at the visited entry only;
+                 Q' = Q + (G - Q)/n';  corollary Q' == (n*Q + G)/(n+1);
+                 fold invariant  n*Q == sum of the observed returns.
+  Dyna-Q model:  T[s,a,k] == cnt[s,a,k] / sum_k' cnt[s,a,k'],
+                 R[s,a,k] == mean(observed rewards of (s,a,k)).
+"""
+import ast
+
 import z3
 
 from pyvc import core as C
 from pyvc import tensor as T
-from pyvc.core import INT, REAL, Sym, band, bnot, bor, iff, implies
+from pyvc.core import INT, KEY, REAL, Sym, band, bnot, bor, implies
+from pyvc.interp import Frame
+from pyvc.lib import ext_tabular as X
 from pyvc.runner import Task
 
 PROPERTY = "C14"
 LEVEL = "proof"
-A_ = "rl_blox.algorithm."
+ALG = "rl_blox.algorithm."
+GREEDY = "rl_blox.blox.value_policy.greedy_policy"
 
 
-def _table(E, name, S, A):
-    return T.fresh_tensor(name, (S, A), REAL)
-
-
+# ------------------------------------------------------------------ helpers
 def _dims(E):
     return E.int("S", 1), E.int("A", 1)
 
@@ -25,22 +53,656 @@ def _idx(E, name, n):
     return i
 
 
-def h_q(E):
+def _hyper(E):
+    return E.real("reward"), E.real("gamma"), E.real("learning_rate"), E.bool("terminated")
+
+
+def inb(i, n):
+    return z3.And(i >= 0, i < C.to_z3(n))
+
+
+def rz(t, *i):
+    return C.as_real(t.at(*i))
+
+
+def claim(E, name, z, **kw):
+    """named obligation; NOT assumed afterwards (a failed clause must not make
+    later clauses - or the canaries - vacuously true)"""
+    kw.setdefault("assume_after", False)
+    E.st.oblige(name, z, **kw)
+
+
+def forall_goal(E, name, sorts, fn, hint="sk", using=None):
+    """forall-goal, Skolemised; unlike st.oblige_forall the proved statement is
+    NOT added to the quantified hypotheses (keeps later queries small)"""
+    sks = [E.st.fresh(f"{hint}{i}", srt) for i, srt in enumerate(sorts)]
+    E.st.oblige(name, C.as_bool(fn(*sks)), assume_after=False, extra_pool=[t for t in sks if t.sort() == INT], using=using)
+
+
+def verdict(E, name, ok, why):
+    if ok:
+        E.st.ok(name)
+    else:
+        E.st.fail(name, why)
+    return ok
+
+
+def same_shape(E, name, t, ref):
+    ok = isinstance(t, T.Tensor) and t.ndim == ref.ndim and all(T.dim_eq(a, b) for a, b in zip(t.shape, ref.shape))
+    if ok:
+        E.st.ok(name)
+    else:
+        E.st.fail(name, f"result {getattr(t, 'shape', type(t).__name__)} is not a table of shape {ref.shape}")
+    return ok
+
+
+def row_max(Q, s):
+    """max_b Q[s, b]   (own reduction node: value >= every entry, attained)"""
+    return T.reduce(T.index(Q, (s,)), "max")
+
+
+def row_argmax(Q, s):
+    """argmax_b Q[s, b] (first maximiser, as documented for argmax)"""
+    return T.reduce(T.index(Q, (s,)), "argmax")
+
+
+def td_target_value(Q, s, a, r, gamma, lr, notdone, V):
+    q = Q.at(s, a)
+    return q + lr * (r + gamma * notdone * V - q)
+
+
+def td_post(E, tag, Q, Qn, s, a, r, gamma, lr, term, V, entry_name="entry"):
+    """the textbook one-entry TD update"""
+    if not same_shape(E, f"{tag}.shape", Qn, Q):
+        return
+    S, A = Q.shape
+    notdone = 1 if term is None else 1 - C.ite(term, 1, 0)
+    claim(E, f"{tag}.{entry_name}", Qn.at(s, a) == td_target_value(Q, s, a, r, gamma, lr, notdone, V), assume_after=False)
+    sz, az = s.z, a.z
+    forall_goal(E, 
+        f"{tag}.frame", [INT, INT],
+        lambda i, j: z3.Implies(z3.And(inb(i, S), inb(j, A), z3.Or(i != sz, j != az)), rz(Qn, i, j) == rz(Q, i, j)),
+        hint="e", using=[])
+
+
+def loop_prefix(E, qualname, upto, local_vars):
+    """Execute the REAL statements of the (single) training loop body of
+    `qualname` from its first statement up to and including the last statement
+    containing `upto`, in a frame whose locals are `local_vars` (one arbitrary
+    loop iteration: the loop-carried locals are arbitrary symbolic values, the
+    environment is a ScriptedEnv answering with arbitrary values).  Returns
+    the locals afterwards.  This covers the call-site argument construction of
+    the update functions."""
+    cl = E.resolve(qualname)
+    E.loader.note_entered(cl)
+    loops = [st for st in cl.node.body if isinstance(st, ast.For)]
+    if len(loops) != 1:
+        raise C.Unsupported(f"{qualname}: expected exactly one training loop")
+    body = loops[0].body
+    last = [k for k, st in enumerate(body) if upto in ast.unparse(st)]
+    if not last:
+        raise C.Unsupported(f"{qualname}: no statement containing {upto!r} in the training loop")
+    fr = Frame(cl.qualname, cl.module, parent=cl.env, closure=cl)
+    fr.vars.update(local_vars)
+    E.exec_block(body[: last[-1] + 1], fr)
+    return fr.vars
+
+
+def _stub_eps_greedy(shared):
+    """behaviour policy replaced by its contract: SOME action of the table's
+    action set (the calls are recorded for the call-site obligations)"""
+    def stub(E, q_table, observation, epsilon, key):
+        A = q_table.shape[-1]
+        act = E.st.fresh_sym("policy_action", INT, is_input=True)
+        E.assume(band(act >= 0, C.compare("<", act, A)))
+        E.st.ghost.setdefault("policy_calls", []).append((q_table, observation, act))
+        return act
+    shared.stubs["rl_blox.blox.value_policy.epsilon_greedy_policy"] = stub
+
+
+def _loop_locals(E, **kw):
+    d = dict(epsilon=E.real("epsilon"), logger=None, steps_per_episode=E.int("steps_per_episode"), i=E.int("i"),
+             t=E.int("t"), key=E.val("key", KEY), progress_bar=False)
+    d.update(kw)
+    return d
+
+
+def policy_call(E, tag, k, n, obs, table=None):
+    """the k-th of n behaviour-policy calls was made on (table, obs); returns its action"""
+    calls = E.st.ghost.get("policy_calls", [])
+    ok = len(calls) == n and calls[k][1] is obs and (table is None or calls[k][0] is table)
+    verdict(E, tag, ok, f"{len(calls)} behaviour policy calls / wrong arguments")
+    return calls[k][2] if ok else None
+
+
+# ---------------------------------------------------------- td_error / greedy
+def h_td_error(E):
+    r, g, v, nv = E.real("reward"), E.real("gamma"), E.real("value"), E.real("next_value")
+    d = E.call("rl_blox.util.error_functions.td_error", r, g, v, nv)
+    claim(E, "td_error.formula", d == r + g * nv - v)
+    claim(E, "canary.td_error", d == r + nv - v, assume_after=False)
+
+
+def h_greedy(E):
     S, A = _dims(E)
-    Q = _table(E, "Q", S, A)
+    Q = T.fresh_tensor("Q", (S, A), REAL)
+    s = _idx(E, "s", S)
+    g = E.call(GREEDY, Q, s)
+    if isinstance(g, T.Tensor):
+        if g.ndim:
+            E.st.fail("greedy.scalar", f"shape {g.shape}")
+            return
+        g = g.at()
+    E.st.ok("greedy.scalar")
+    claim(E, "greedy.in_range", band(g >= 0, g < A))
+    sz, gz = s.z, C.as_int(g)
+    forall_goal(E, "greedy.maximal", [INT], lambda b: z3.Implies(inb(b, A), rz(Q, sz, b) <= rz(Q, sz, gz)), hint="b")
+    forall_goal(E, "greedy.first_maximiser", [INT], lambda b: z3.Implies(z3.And(b >= 0, b < gz), rz(Q, sz, b) < rz(Q, sz, gz)), hint="b")
+    claim(E, "greedy.value_is_row_max", Q.at(s, g) == row_max(Q, s))
+    claim(E, "canary.greedy", C.compare("==", g, 0), assume_after=False)
+
+
+# ------------------------------------------------------------------ Q-learning
+def h_q_learning(E):
+    """_update_policy with the next action the loop passes: greedy_policy(Q, s')"""
+    S, A = _dims(E)
+    Q = T.fresh_tensor("Q", (S, A), REAL)
     s, a, s2 = _idx(E, "s", S), _idx(E, "a", A), _idx(E, "s_next", S)
-    r, gamma, lr = E.real("r"), E.real("gamma"), E.real("lr")
-    term = E.bool("terminated")
-    na = E.call("rl_blox.blox.value_policy.greedy_policy", Q, s2)
-    Q2 = E.call(A_ + "q_learning._update_policy", Q, s, a, r, s2, na, gamma, term, lr)
-    V = T.reduce(T.index(Q, (s2,)), "max")
-    tz = C.ite(term, 1, 0)
-    E.oblige("entry", Q2.at(s, a) == Q.at(s, a) + lr * (r + gamma * (1 - tz) * V - Q.at(s, a)))
-    E.oblige("canary.x", Q2.at(s, a) == Q.at(s, a), assume_after=False)
+    r, gamma, lr, term = _hyper(E)
+    na = E.call(GREEDY, Q, s2)
+    Qn = E.call(ALG + "q_learning._update_policy", Q, s, a, r, s2, na, gamma, term, lr)
+    td_post(E, "post", Q, Qn, s, a, r, gamma, lr, term, row_max(Q, s2))
+    claim(E, "canary.unchanged", Qn.at(s, a) == Q.at(s, a), assume_after=False)
 
 
-TASKS = [Task("q_learning", h_q)]
-TRUSTED = []
-ASSUMPTIONS = []
-NOT_COVERED = []
-READY = False
+def h_q_learning_callsite(E):
+    """one iteration of train_q_learning up to the update"""
+    S, A = _dims(E)
+    Q = T.fresh_tensor("Q", (S, A), REAL)
+    s, s2 = _idx(E, "s", S), _idx(E, "s_next", S)
+    r, gamma, lr, term = _hyper(E)
+    env = X.ScriptedEnv(steps=[(s2, r, term, E.bool("truncated"), {})])
+    out = loop_prefix(E, ALG + "q_learning.train_q_learning", "_update_policy", _loop_locals(
+        E, env=env, q_table=Q, observation=s, gamma=gamma, learning_rate=lr))
+    a = policy_call(E, "callsite.behaviour_policy_on_current_state", 0, 1, s, Q)
+    if a is None:
+        return
+    claim(E, "callsite.env_receives_policy_action", band(len(env.actions) == 1, C.compare("==", env.actions[0], a)))
+    td_post(E, "callsite", Q, out["q_table"], s, a, r, gamma, lr, term, row_max(Q, s2))
+    claim(E, "canary.callsite", out["q_table"].at(s, a) == Q.at(s, a), assume_after=False)
+
+
+# ------------------------------------------------------------------------ SARSA
+def h_sarsa(E):
+    S, A = _dims(E)
+    Q = T.fresh_tensor("Q", (S, A), REAL)
+    s, a, s2, a2 = _idx(E, "s", S), _idx(E, "a", A), _idx(E, "s_next", S), _idx(E, "a_next", A)
+    r, gamma, lr, term = _hyper(E)
+    Qn = E.call(ALG + "sarsa._update_policy", Q, s, a, r, s2, a2, gamma, lr, term)
+    td_post(E, "post", Q, Qn, s, a, r, gamma, lr, term, Q.at(s2, a2))
+    claim(E, "canary.unchanged", Qn.at(s, a) == Q.at(s, a), assume_after=False)
+
+
+def h_sarsa_callsite(E):
+    """one iteration of train_sarsa up to the update: the next action is
+    drawn by the behaviour policy at the successor state"""
+    S, A = _dims(E)
+    Q = T.fresh_tensor("Q", (S, A), REAL)
+    s, s2 = _idx(E, "s", S), _idx(E, "s_next", S)
+    r, gamma, lr, term = _hyper(E)
+    env = X.ScriptedEnv(steps=[(s2, r, term, E.bool("truncated"), {})])
+    out = loop_prefix(E, ALG + "sarsa.train_sarsa", "_update_policy", _loop_locals(
+        E, env=env, q_table=Q, observation=s, gamma=gamma, learning_rate=lr))
+    a = policy_call(E, "callsite.behaviour_policy_on_current_state", 0, 2, s, Q)
+    a2 = policy_call(E, "callsite.next_action_from_policy_at_successor", 1, 2, s2, Q)
+    if a is None or a2 is None:
+        return
+    claim(E, "callsite.env_receives_policy_action", band(len(env.actions) == 1, C.compare("==", env.actions[0], a)))
+    td_post(E, "callsite", Q, out["q_table"], s, a, r, gamma, lr, term, Q.at(s2, a2))
+    claim(E, "canary.callsite", out["q_table"].at(s, a) == Q.at(s, a), assume_after=False)
+
+
+# -------------------------------------------------------------- double Q-learning
+def double_q_value(Qu, Qo, s2):
+    """the OTHER table's value of the UPDATED table's greedy action at s'"""
+    return Qo.at(s2, row_argmax(Qu, s2))
+
+
+def h_dql(E):
+    S, A = _dims(E)
+    Q1 = T.fresh_tensor("Q_updated", (S, A), REAL)
+    Q2 = T.fresh_tensor("Q_other", (S, A), REAL)
+    s, a, s2 = _idx(E, "s", S), _idx(E, "a", A), _idx(E, "s_next", S)
+    r, gamma, lr, term = _hyper(E)
+    Qn = E.call(ALG + "double_q_learning._dql_update", E.val("key", KEY), Q1, Q2, s, a, r, s2, gamma, lr, term)
+    td_post(E, "post", Q1, Qn, s, a, r, gamma, lr, term, double_q_value(Q1, Q2, s2))
+    claim(E, "canary.unchanged", Qn.at(s, a) == Q1.at(s, a), assume_after=False)
+
+
+def h_dql_callsite(E):
+    """one iteration of train_double_q_learning up to the update: coin flip,
+    then exactly one table is updated with the other one as evaluator"""
+    S, A = _dims(E)
+    Qa = T.fresh_tensor("q_table1", (S, A), REAL)
+    Qb = T.fresh_tensor("q_table2", (S, A), REAL)
+    s, s2 = _idx(E, "s", S), _idx(E, "s_next", S)
+    r, gamma, lr, term = _hyper(E)
+    env = X.ScriptedEnv(steps=[(s2, r, term, E.bool("truncated"), {})])
+    out = loop_prefix(E, ALG + "double_q_learning.train_double_q_learning", "_dql_update", _loop_locals(
+        E, env=env, q_table1=Qa, q_table2=Qb, observation=s, gamma=gamma, learning_rate=lr))
+    a = policy_call(E, "callsite.behaviour_policy_on_current_state", 0, 1, s)
+    if a is None:
+        return
+    claim(E, "callsite.env_receives_policy_action", band(len(env.actions) == 1, C.compare("==", env.actions[0], a)))
+    n1, n2 = out["q_table1"], out["q_table2"]
+    if not verdict(E, "callsite.exactly_one_table_updated", (n1 is Qa) != (n2 is Qb), "both or neither table replaced"):
+        return
+    if n2 is Qb:
+        td_post(E, "callsite", Qa, n1, s, a, r, gamma, lr, term, double_q_value(Qa, Qb, s2))
+        claim(E, "canary.callsite", n1.at(s, a) == Qa.at(s, a), assume_after=False)
+    else:
+        td_post(E, "callsite", Qb, n2, s, a, r, gamma, lr, term, double_q_value(Qb, Qa, s2))
+        claim(E, "canary.callsite", n2.at(s, a) == Qb.at(s, a), assume_after=False)
+
+
+# ------------------------------------------------------------------ Monte-Carlo
+MC_BODY = ALG + "monte_carlo.update.<locals>._update_body"
+
+
+def _mc_inputs(E, L):
+    S, A = _dims(E)
+    Q = T.fresh_tensor("Q", (S, A), REAL)
+    N = T.fresh_tensor("n_visits", (S, A), REAL)
+    gamma = E.real("gamma")
+    if isinstance(L, int):
+        rew = T.from_list([E.real(f"reward{t}") for t in range(L)])
+        obs = T.from_list([_idx(E, f"s{t}", S) for t in range(L)])
+        act = T.from_list([_idx(E, f"a{t}", A) for t in range(L)])
+    else:
+        rew = T.fresh_tensor("rewards", (L,), REAL)
+        obs = T.fresh_tensor("observations", (L,), INT)
+        act = T.fresh_tensor("actions", (L,), INT)
+        E.st.assume_forall([INT], lambda t: z3.Implies(inb(t, L), z3.And(inb(C.as_int(obs.at(t)), S), inb(C.as_int(act.at(t)), A))), "episode.in_range")
+    return S, A, Q, N, gamma, rew, obs, act
+
+
+def h_mc_step(E):
+    """inductive step of the backward fold (jax.lax.fori_loop in `update`):
+    ONE application of the real `_update_body` to an arbitrary loop state that
+    satisfies the fold invariant."""
+    L = E.int("L", 1)
+    S, A, Q0, N0, gamma, rew, obs, act = _mc_inputs(E, L)
+    # ghost: G(t) = discounted return of the episode suffix starting at t
+    G = z3.Function("G_suffix", INT, REAL)
+    Lz, gz = L.z, gamma.z
+    E.assume(Sym(G(Lz) == 0))
+    E.st.assume_forall([INT], lambda t: z3.Implies(inb(t, L), G(t) == rz(rew, t) + gz * G(t + 1)), "G.def")
+    done = {}
+
+    def cut(E, lower, upper, body, init):
+        # ---- base: the initial loop state establishes the invariant
+        q_i, n_i, g_i = init
+        ok = (q_i is Q0) and (n_i is N0)
+        verdict(E, "fold.base.tables", ok, "loop does not start from the given tables")
+        claim(E, "fold.base.bounds", band(C.compare("==", lower, 0), C.compare("==", upper, L)))
+        claim(E, "fold.base.return_is_zero", C.compare("==", g_i, 0))
+        # ---- arbitrary iteration i with an arbitrary state satisfying the invariant
+        i = E.int("i")
+        E.assume(band(i >= 0, i < L))
+        t = L - 1 - i  # time step processed by iteration i (backward)
+        Q = T.fresh_tensor("Q_i", (S, A), REAL)
+        N = T.fresh_tensor("n_i", (S, A), REAL)
+        RS = T.fresh_tensor("return_sum_i", (S, A), REAL)  # ghost: sum of observed returns per entry
+        Gi = E.real("ep_return_i")
+        E.assume(Sym(Gi.z == G(t.z + 1)))  # INV-G: ep_return == G(t+1)
+        # INV-mean: n >= 0, n*Q == sum of observed returns (n == 0: nothing observed)
+        E.st.assume_forall([INT, INT], lambda x, y: z3.Implies(z3.And(inb(x, S), inb(y, A)), z3.And(
+            rz(N, x, y) >= 0, z3.Implies(rz(N, x, y) > 0, rz(Q, x, y) * rz(N, x, y) == rz(RS, x, y)),
+            z3.Implies(rz(N, x, y) == 0, rz(RS, x, y) == 0))), "INV.mean")
+        res = E.call_value(body, [i, (Q, N, Gi)], {})
+        Qn, Nn, Gn = res
+        if not (same_shape(E, "body.q.shape", Qn, Q) and same_shape(E, "body.n.shape", Nn, N)):
+            return res
+        o, a, r = obs.at(t), act.at(t), rew.at(t)
+        oz, az = C.as_int(o), C.as_int(a)
+        claim(E, "body.return.recursion", Gn == r + gamma * Gi)
+        claim(E, "fold.step.return_is_suffix_return", Sym(C.as_real(Gn) == G(t.z)))
+        claim(E, "body.count.entry", Nn.at(o, a) == N.at(o, a) + 1)
+        forall_goal(E, "body.count.frame", [INT, INT], lambda x, y: z3.Implies(
+            z3.And(inb(x, S), inb(y, A), z3.Or(x != oz, y != az)), rz(Nn, x, y) == rz(N, x, y)), hint="e", using=["episode.in_range"])
+        claim(E, "body.q.entry", Qn.at(o, a) == Q.at(o, a) + (Gn - Q.at(o, a)) / Nn.at(o, a))
+        forall_goal(E, "body.q.frame", [INT, INT], lambda x, y: z3.Implies(
+            z3.And(inb(x, S), inb(y, A), z3.Or(x != oz, y != az)), rz(Qn, x, y) == rz(Q, x, y)), hint="e", using=["episode.in_range"])
+        claim(E, "body.q.incremental_mean", Qn.at(o, a) == (N.at(o, a) * Q.at(o, a) + Gn) / (N.at(o, a) + 1),
+                 using=["episode.in_range", "INV.mean"])
+        RSn = T.at_set(RS, (o, a), Gn, "add")  # ghost update: the return observed for (o, a)
+        inv_at = lambda Qt, Nt, Rt, x, y: z3.And(  # noqa: E731
+            rz(Nt, x, y) >= 0, z3.Implies(rz(Nt, x, y) > 0, rz(Qt, x, y) * rz(Nt, x, y) == rz(Rt, x, y)),
+            z3.Implies(rz(Nt, x, y) == 0, rz(Rt, x, y) == 0))
+        claim(E, "fold.step.mean_invariant.visited_entry", Sym(inv_at(Qn, Nn, RSn, oz, az)), assume_after=False, using=["episode.in_range", "INV.mean"])
+        forall_goal(E, "fold.step.mean_invariant.other_entries", [INT, INT], lambda x, y: z3.Implies(
+            z3.And(inb(x, S), inb(y, A), z3.Or(x != oz, y != az)), inv_at(Qn, Nn, RSn, x, y)), hint="e", using=["episode.in_range", "INV.mean"])
+        claim(E, "canary.body", Qn.at(o, a) == Q.at(o, a), assume_after=False)
+        # ---- after the loop: an arbitrary state (the invariant at i == L is all the caller may use)
+        Qf = T.fresh_tensor("Q_final", (S, A), REAL)
+        Nf = T.fresh_tensor("n_final", (S, A), REAL)
+        done["final"] = (Qf, Nf)
+        return (Qf, Nf, E.real("ep_return_final"))
+
+    E.shared.fori_specs = {MC_BODY: cut}
+    res = E.call(ALG + "monte_carlo.update", Q0, N0, rew, obs, act, gamma)
+    if "final" not in done:
+        E.st.fail("update.uses_fold", "update did not run its fold")
+        return
+    Qf, Nf = done["final"]
+    vals = list(res.values) if isinstance(res, C.NamedTuple) else list(res)
+    if len(vals) == 2 and vals[0] is Qf and vals[1] is Nf:
+        E.st.ok("update.returns_q_table_then_n_visits")
+    else:
+        E.st.fail("update.returns_q_table_then_n_visits", "result is not (q_table, n_visits) of the fold")
+
+
+def mk_mc_episode(L):
+    def h(E):
+        """whole `update` on an episode of concrete length L (fori_loop unrolled)
+        against the textbook every-visit backward pass"""
+        S, A, Q, N, gamma, rew, obs, act = _mc_inputs(E, L)
+        E.st.assume_forall([INT, INT], lambda x, y: rz(N, x, y) >= 0, "counts.nonneg")
+        res = E.call(ALG + "monte_carlo.update", Q, N, rew, obs, act, gamma)
+        Qn, Nn = res.get("q_table"), res.get("n_visits")
+        Qr, Nr, G = Q, N, 0
+        for t in reversed(range(L)):
+            o, a = obs.at(t), act.at(t)
+            G = rew.at(t) + gamma * G
+            Nr = T.at_set(Nr, (o, a), 1, "add")
+            Qr = T.at_set(Qr, (o, a), (G - Qr.at(o, a)) / Nr.at(o, a), "add")
+        if not (same_shape(E, "episode.q.shape", Qn, Q) and same_shape(E, "episode.n.shape", Nn, N)):
+            return
+        forall_goal(E, "episode.q", [INT, INT], lambda x, y: z3.Implies(z3.And(inb(x, S), inb(y, A)), rz(Qn, x, y) == rz(Qr, x, y)), hint="e", using=["counts"])
+        forall_goal(E, "episode.n", [INT, INT], lambda x, y: z3.Implies(z3.And(inb(x, S), inb(y, A)), rz(Nn, x, y) == rz(Nr, x, y)), hint="e", using=["counts"])
+        claim(E, "canary.episode", Qn.at(obs.at(0), act.at(0)) == Q.at(obs.at(0), act.at(0)), assume_after=False)
+    return h
+
+
+# ----------------------------------------------------------------------- Dyna-Q
+DY = ALG + "dynaq."
+
+
+def greedy_update_spec(Q, s, a, r, s2, gamma, lr):
+    """textbook greedy-successor (Q-learning) update of one entry"""
+    return T.at_set(Q, (s, a), td_target_value(Q, s, a, r, gamma, lr, 1, row_max(Q, s2)), "set")
+
+
+def h_dyna_q_update(E):
+    S, A = _dims(E)
+    Q = T.fresh_tensor("Q", (S, A), REAL)
+    s, a, s2 = _idx(E, "s", S), _idx(E, "a", A), _idx(E, "s_next", S)
+    r, gamma, lr = E.real("reward"), E.real("gamma"), E.real("learning_rate")
+    Qn = E.call(DY + "q_learning_update", s, a, r, s2, gamma, lr, Q)
+    td_post(E, "post", Q, Qn, s, a, r, gamma, lr, None, row_max(Q, s2))
+    claim(E, "canary.unchanged", Qn.at(s, a) == Q.at(s, a), assume_after=False)
+
+
+def tensors_equal(E, name, X_, Y_, S, A):
+    if not same_shape(E, name + ".shape", X_, Y_):
+        return
+    forall_goal(E, name, [INT, INT], lambda i, j: z3.Implies(z3.And(inb(i, S), inb(j, A)), rz(X_, i, j) == rz(Y_, i, j)), hint="e",
+                       using=["max", "randint", "buffer"])
+
+
+def _buffers(E, S, A):
+    B = E.int("B", 1)
+    ob = T.fresh_tensor("obs_buffer", (B,), INT)
+    ab = T.fresh_tensor("act_buffer", (B,), INT)
+    E.st.assume_forall([INT], lambda k: z3.Implies(inb(k, B), z3.And(inb(C.as_int(ob.at(k)), S), inb(C.as_int(ab.at(k)), A))), "buffer.in_range")
+    return B, ob, ab
+
+
+def _draw(key, j):
+    """index drawn for planning step j: planning() splits its key in two and
+    draws randint(sampling_key, (n,), 0, len(buffer)) - the witness of
+    'a pair drawn from the visited buffers'"""
+    split = C.uf("key_split", KEY, INT, KEY)
+    rnd = C.uf("rand_int1", KEY, INT, INT)
+    return Sym(rnd(split(key.z, z3.IntVal(1)), z3.IntVal(j)))
+
+
+def mk_planning(n_steps):
+    def h(E):
+        S, A = _dims(E)
+        Q = T.fresh_tensor("Q", (S, A), REAL)
+        Tm = T.fresh_tensor("model_transition", (S, A, S), REAL)
+        Rm = T.fresh_tensor("model_reward", (S, A, S), REAL)
+        B, ob, ab = _buffers(E, S, A)
+        gamma, lr = E.real("gamma"), E.real("learning_rate")
+        key = E.val("key", KEY)
+        Qn = E.call(DY + "planning", Tm, Rm, ob, ab, n_steps, key, gamma, lr, Q)
+        Qs = Q
+        for j in range(n_steps):
+            k = _draw(key, j)
+            claim(E, f"planning.step{j}.pair_drawn_from_buffers", band(k >= 0, k < B), using=["randint"])
+            s, a = ob.at(k), ab.at(k)  # the SAME position of both buffers: a visited pair
+            s2 = T.reduce(T.index(Tm, (s, a)), "argmax")  # most likely successor under the model
+            Qs = greedy_update_spec(Qs, s, a, Rm.at(s, a, s2), s2, gamma, lr)
+        tensors_equal(E, "planning.result_is_greedy_update_of_replayed_transitions", Qn, Qs, S, A)
+        claim(E, "canary.planning", Qn.at(ob.at(_draw(key, 0)), ab.at(_draw(key, 0))) == Q.at(ob.at(_draw(key, 0)), ab.at(_draw(key, 0))), assume_after=False)
+    return h
+
+
+def _counter_and_model(E, S, A):
+    cnt = X.fresh_count_table(E, "transition_counter", (S, A, S))
+    hist = X.fresh_history_table(E, "reward_history", (S, A, S))
+    counter = E.new_obj(DY + "Counter", name="counter", transition_counter=cnt, reward_history=hist)
+    Tm = T.fresh_tensor("model.transition", (S, A, S), REAL)
+    Rm = T.fresh_tensor("model.reward", (S, A, S), REAL)
+    model = E.new_obj(DY + "ForwardModel", name="model", transition=Tm, reward=Rm)
+    c0, l0, m0 = cnt.t, hist.ln, hist.sm
+    return counter, model, cnt, hist, Tm, Rm, c0, l0, m0
+
+
+def iz(t, *i):
+    return C.as_int(t.at(*i))
+
+
+def model_row_invariant(Tm, Rm, c, l, m, tot, s, a, S):
+    """MI for row (s, a): empirical frequencies and mean rewards"""
+    sz, az, tz = C.to_z3(s), C.to_z3(a), C.as_real(tot)
+    return lambda k: z3.Implies(inb(k, S), z3.And(
+        z3.Implies(tz > 0, rz(Tm, sz, az, k) == z3.ToReal(iz(c, sz, az, k)) / tz),
+        z3.Implies(iz(c, sz, az, k) > 0, rz(Rm, sz, az, k) == rz(m, sz, az, k) / z3.ToReal(iz(l, sz, az, k)))))
+
+
+def h_model_update(E):
+    """counter_update ; model_update  on an observed transition (s, a, r, s')"""
+    S, A = _dims(E)
+    counter, model, cnt, hist, T0, R0, c0, l0, m0 = _counter_and_model(E, S, A)
+    s, a, s2 = _idx(E, "s", S), _idx(E, "a", A), _idx(E, "s_next", S)
+    r = E.real("reward")
+    sz, az, s2z = s.z, a.z, s2.z
+    # counter well-formed (CI): counts are naturals, one stored reward per counted
+    # transition - assumed on the visited row and at one ARBITRARY cell (ci, cj, ck)
+    # (manual Skolemisation of "forall cells", keeps every query ground / 1-ary)
+    ci, cj, ck = _idx(E, "cell_s", S), _idx(E, "cell_a", A), _idx(E, "cell_s_next", S)
+    wf = lambda c, l, i, j, k: z3.And(iz(c, i, j, k) >= 0, iz(l, i, j, k) == iz(c, i, j, k))  # noqa: E731
+    E.st.assume_forall([INT], lambda k: wf(c0, l0, sz, az, k), "CI.row")
+    E.assume(Sym(wf(c0, l0, ci.z, cj.z, ck.z)))
+    # model invariant on the visited row before the step
+    tot0 = T.reduce(T.index(c0, (s, a)), "sum")
+    E.st.assume_forall([INT], model_row_invariant(T0, R0, c0, l0, m0, tot0, s, a, S), "MI.pre")
+    c_ret = E.call(DY + "counter_update", counter, s, a, r, s2)
+    verdict(E, "counter.returns_counter", c_ret is counter, "not the counter")
+    c1, l1, m1 = cnt.t, hist.ln, hist.sm
+    hit = lambda i, j, k: z3.And(i == sz, j == az, k == s2z)  # noqa: E731
+    rng = lambda i, j, k: z3.And(inb(i, S), inb(j, A), inb(k, S))  # noqa: E731
+    claim(E, "counter.count.entry", c1.at(s, a, s2) == c0.at(s, a, s2) + 1)
+    forall_goal(E, "counter.count.frame", [INT] * 3, lambda i, j, k: z3.Implies(z3.And(rng(i, j, k), z3.Not(hit(i, j, k))), iz(c1, i, j, k) == iz(c0, i, j, k)), hint="c", using=[])
+    claim(E, "counter.rewards.entry", band(l1.at(s, a, s2) == l0.at(s, a, s2) + 1, m1.at(s, a, s2) == m0.at(s, a, s2) + r))
+    forall_goal(E, "counter.rewards.frame", [INT] * 3, lambda i, j, k: z3.Implies(z3.And(rng(i, j, k), z3.Not(hit(i, j, k))),
+                       z3.And(iz(l1, i, j, k) == iz(l0, i, j, k), rz(m1, i, j, k) == rz(m0, i, j, k))), hint="c", using=[])
+    claim(E, "counter.wf_preserved", Sym(wf(c1, l1, ci.z, cj.z, ck.z)), assume_after=False, using=[])
+    # finite-sum lemmas relating the row totals before / after the increment
+    _, tot1 = X.sum_point_update_lemmas(E, c0, c1, (s, a), s2, 1)
+    m_ret = E.call(DY + "model_update", model, counter, s, a, s2)
+    verdict(E, "model.returns_model", m_ret is model, "not the model")
+    T1, R1 = model.fields["transition"], model.fields["reward"]
+    if not (same_shape(E, "model.transition.shape", T1, T0) and same_shape(E, "model.reward.shape", R1, R0)):
+        return
+    t1 = C.as_real(tot1)
+    USE = ["MI.pre", "CI.row"]
+    claim(E, "inv.total_positive", C.compare(">", tot1, 0), using=USE)
+    claim(E, "inv.frequency_of_observed_successor", Sym(rz(T1, sz, az, s2z) == z3.ToReal(iz(c1, sz, az, s2z)) / t1), using=USE)
+    # the learned model equals the empirical successor frequencies of the visited pair
+    forall_goal(E, "inv.frequencies", [INT], lambda k: z3.Implies(inb(k, S), rz(T1, sz, az, k) == z3.ToReal(iz(c1, sz, az, k)) / t1), hint="succ", using=USE)
+    claim(E, "inv.mean_reward", Sym(rz(R1, sz, az, s2z) == rz(m1, sz, az, s2z) / z3.ToReal(iz(l1, sz, az, s2z))), using=USE)
+    forall_goal(E, "inv.mean_reward_other_successors", [INT], lambda k: z3.Implies(z3.And(inb(k, S), k != s2z, iz(c1, sz, az, k) > 0),
+                       rz(R1, sz, az, k) == rz(m1, sz, az, k) / z3.ToReal(iz(l1, sz, az, k))), hint="succ", using=USE)
+    # rows of other (state, action) pairs are untouched (their invariant carries over: counters unchanged too)
+    forall_goal(E, "frame.other_rows", [INT] * 3, lambda i, j, k: z3.Implies(z3.And(rng(i, j, k), z3.Or(i != sz, j != az)),
+                       z3.And(rz(T1, i, j, k) == rz(T0, i, j, k), rz(R1, i, j, k) == rz(R0, i, j, k))), hint="c", using=[])
+    claim(E, "canary.model", Sym(rz(T1, sz, az, s2z) == rz(T0, sz, az, s2z)), assume_after=False)
+    claim(E, "canary.counter", c1.at(s, a, s2) == c0.at(s, a, s2), assume_after=False)
+
+
+def h_dyna_callsite(E):
+    """one iteration of train_dynaq up to planning: direct RL update on the
+    real transition, counter / model update with the same transition, planning
+    on the updated model and table (1 planning step, 2 older buffer entries)"""
+    S, A = _dims(E)
+    Q = T.fresh_tensor("Q", (S, A), REAL)
+    counter, model, cnt, hist, T0, R0, c0, l0, m0 = _counter_and_model(E, S, A)
+    s, s2 = _idx(E, "s", S), _idx(E, "s_next", S)
+    r, gamma, lr = E.real("reward"), E.real("gamma"), E.real("learning_rate")
+    old = [(_idx(E, f"s_old{k}", S), _idx(E, f"a_old{k}", A)) for k in range(2)]
+    key = E.val("key", KEY)
+    env = X.ScriptedEnv(steps=[(s2, r, E.bool("terminated"), E.bool("truncated"), {})])
+    out = loop_prefix(E, DY + "train_dynaq", "planning(", _loop_locals(
+        E, env=env, q_table=Q, obs=s, gamma=gamma, learning_rate=lr, n_planning_steps=1, counter=counter, model=model,
+        obs_buffer=[p[0] for p in old], act_buffer=[p[1] for p in old], key=key, accumulated_reward=E.real("accumulated_reward")))
+    a = policy_call(E, "callsite.behaviour_policy_on_current_state", 0, 1, s, Q)
+    if a is None:
+        return
+    claim(E, "callsite.env_receives_policy_action", band(len(env.actions) == 1, C.compare("==", env.actions[0], a)))
+    Qn = out["q_table"]
+    c1, l1, m1 = cnt.t, hist.ln, hist.sm
+    claim(E, "callsite.counter_sees_real_transition", band(c1.at(s, a, s2) == c0.at(s, a, s2) + 1, m1.at(s, a, s2) == m0.at(s, a, s2) + r))
+    ob = T.from_list([p[0] for p in old] + [s])  # the visited pairs, the current one included
+    ab = T.from_list([p[1] for p in old] + [a])
+    # key threading of the loop: key,k_pol = split(key); key,k_plan = split(key); planning(..., k_plan, ...)
+    split = C.uf("key_split", KEY, INT, KEY)
+    k = _draw(Sym(split(split(key.z, z3.IntVal(0)), z3.IntVal(1))), 0)
+    claim(E, "callsite.planning.pair_drawn_from_buffers", band(k >= 0, k < 3), using=["randint"])
+    T1, R1 = model.fields["transition"], model.fields["reward"]
+    Q1 = greedy_update_spec(Q, s, a, r, s2, gamma, lr)  # direct RL on the real transition
+    ps, pa = ob.at(k), ab.at(k)
+    ps2 = T.reduce(T.index(T1, (ps, pa)), "argmax")
+    Q2 = greedy_update_spec(Q1, ps, pa, R1.at(ps, pa, ps2), ps2, gamma, lr)  # replayed from the UPDATED model
+    tensors_equal(E, "callsite.real_then_replayed_update", Qn, Q2, S, A)
+    claim(E, "canary.callsite", Qn.at(s, a) == Q.at(s, a), assume_after=False)
+
+
+# ------------------------------------------------- Monte-Carlo call site
+def h_mc_callsite(E):
+    """one iteration of train_monte_carlo: the tables change only when an
+    episode ends, and then update() receives exactly the finished episode
+    (recorded steps start_t..i-1 plus the current step), time aligned"""
+    S, A = _dims(E)
+    Q = T.fresh_tensor("Q", (S, A), REAL)
+    N = T.fresh_tensor("n_visits", (S, A), REAL)
+    s, s2 = _idx(E, "s", S), _idx(E, "s_next", S)
+    r, gamma = E.real("reward"), E.real("gamma")
+    term, trunc = E.bool("terminated"), E.bool("truncated")
+    TT = E.int("total_timesteps", 1)
+    i, start = E.int("i"), E.int("start_t")
+    E.assume(band(start >= 0, start <= i, i < TT))
+    obs0 = T.fresh_tensor("obs_arr", (TT,), INT)
+    act0 = T.fresh_tensor("act_arr", (TT,), INT)
+    rew0 = T.fresh_tensor("rew_arr", (TT,), REAL)
+    Qf = T.fresh_tensor("Q_after", (S, A), REAL, is_input=False)
+    Nf = T.fresh_tensor("n_after", (S, A), REAL, is_input=False)
+    seen = {}
+
+    def update_stub(E, *args):
+        seen["args"] = args
+        return (Qf, Nf)
+
+    E.shared.stubs[ALG + "monte_carlo.update"] = update_stub
+    env = X.ScriptedEnv(steps=[(s2, r, term, trunc, {})], resets=[(_idx(E, "s_reset", S), {})])
+    out = loop_prefix(E, ALG + "monte_carlo.train_monte_carlo", "update(", _loop_locals(
+        E, env=env, q_table=Q, n_visits=N, observation=s, gamma=gamma, obs_arr=obs0, act_arr=act0, rew_arr=rew0,
+        i=i, start_t=start))
+    a = policy_call(E, "callsite.behaviour_policy_on_current_state", 0, 1, s, Q)
+    if a is None:
+        return
+    claim(E, "callsite.env_receives_policy_action", band(len(env.actions) == 1, C.compare("==", env.actions[0], a)))
+    if "args" not in seen:
+        claim(E, "callsite.no_update_only_mid_episode", bnot(bor(term, trunc)))
+        verdict(E, "callsite.tables_unchanged_mid_episode", out["q_table"] is Q and out["n_visits"] is N, "tables replaced mid-episode")
+        claim(E, "callsite.episode_start_kept", C.compare("==", out["start_t"], start))
+        claim(E, "canary.mid_episode", term, assume_after=False)
+        return
+    claim(E, "callsite.update_only_at_episode_end", bor(term, trunc))
+    args = seen["args"]
+    if not verdict(E, "callsite.update_gets_tables_and_gamma", len(args) == 6 and args[0] is Q and args[1] is N and args[5] is gamma, "wrong tables / gamma"):
+        return
+    rew, obs, act = args[2], args[3], args[4]
+    L = i + 1 - start
+    ok = all(isinstance(x, T.Tensor) and x.ndim == 1 for x in (rew, obs, act))
+    if not verdict(E, "callsite.episode_arrays_are_vectors", ok, "episode arrays are not 1-d"):
+        return
+    claim(E, "callsite.episode_length", band(*[C.compare("==", x.shape[0], L) for x in (rew, obs, act)]))
+    iz_, sz_ = i.z, start.z
+    forall_goal(E, "callsite.episode_is_recorded_steps_plus_current", [INT], lambda k: z3.Implies(z3.And(k >= 0, k < C.to_z3(L)), z3.And(
+        rz(rew, k) == z3.If(sz_ + k == iz_, r.z, rz(rew0, sz_ + k)),
+        C.as_int(obs.at(k)) == z3.If(sz_ + k == iz_, s.z, C.as_int(obs0.at(sz_ + k))),
+        C.as_int(act.at(k)) == z3.If(sz_ + k == iz_, C.as_int(a), C.as_int(act0.at(sz_ + k))))), hint="k", using=[])
+    verdict(E, "callsite.result_adopted", out["q_table"] is Qf and out["n_visits"] is Nf, "update result not stored as (q_table, n_visits)")
+    claim(E, "callsite.next_episode_starts_after", C.compare("==", out["start_t"], i + 1))
+    claim(E, "canary.episode_end", bnot(term), assume_after=False)
+
+
+# ------------------------------------------------------------------------ tasks
+TASKS = [
+    Task("td_error", h_td_error),
+    Task("greedy_policy", h_greedy),
+    Task("q_learning._update_policy", h_q_learning),
+    Task("q_learning.train", h_q_learning_callsite, setup=_stub_eps_greedy),
+    Task("sarsa._update_policy", h_sarsa),
+    Task("sarsa.train", h_sarsa_callsite, setup=_stub_eps_greedy),
+    Task("_dql_update", h_dql),
+    Task("double_q.train", h_dql_callsite, setup=_stub_eps_greedy),
+    Task("monte_carlo.fold", h_mc_step),
+    Task("monte_carlo.episode1", mk_mc_episode(1), bounded="episode length 1 (fori_loop unrolled)"),
+    Task("monte_carlo.episode2", mk_mc_episode(2), bounded="episode length 2 (fori_loop unrolled; repeated visits allowed)"),
+    Task("monte_carlo.train", h_mc_callsite, setup=_stub_eps_greedy),
+    Task("dynaq.q_learning_update", h_dyna_q_update),
+    Task("model_update", h_model_update),
+    Task("dynaq.planning1", mk_planning(1)),
+    Task("dynaq.planning2", mk_planning(2), bounded="2 planning steps (python loop unrolled)"),
+    Task("dynaq.train", h_dyna_callsite, setup=_stub_eps_greedy, bounded="1 planning step, replay buffers of 3 entries"),
+]
+
+TRUSTED = [
+    "reals for float32 table entries, rewards, gamma, learning rate (no rounding)",
+    "jax .at[i,j].add/.set = functional point update; jnp.argmax = first maximiser; jax.jit is semantics preserving",
+    "jax.lax.fori_loop(lo, hi, f, x) = fold of f over range(lo, hi) (induction principle used for monte_carlo.update)",
+    "python nested lists as total functions of in-range indices; list[float] abstracted by (len, sum); np.mean(l) = sum(l)/len(l)",
+    "finite-sum lemmas: sum after a point increment = sum + 1; a sum of naturals dominates each summand",
+]
+ASSUMPTIONS = [
+    "states / actions / successor states are in-range indices of the tables (JAX clamps or drops out-of-range indices silently)",
+    "tables have shape (S, A) with S, A >= 1; the Dyna-Q model and counter have shape (S, A, S)",
+    "Monte-Carlo visit counts are >= 0",
+    "Dyna-Q counter is well-formed before the step: counts are naturals and one reward is stored per counted transition",
+    "SARSA call site: epsilon_greedy_policy replaced by its contract (returns some in-range action)",
+]
+NOT_COVERED = [
+    "the environment interaction / episode bookkeeping of the train_* loops (only the statements between env.step and the update call are executed)",
+    "train_monte_carlo's slicing of the episode arrays handed to update()",
+    "Dyna-Q bootstraps from the successor even when the transition terminated (q_learning_update has no termination flag; the property does not demand one for Dyna-Q)",
+    "Dyna-Q call site with more than one planning step / longer buffers (the per-step law is proved for arbitrary buffers in dynaq.planning1/2)",
+]
+REPLAY = {
+    "_dql_update.": "c14_tabular", "double_q.train.": "c14_tabular", "model_update.": "c14_tabular",
+    "q_learning.": "c14_tabular", "sarsa.": "c14_tabular", "monte_carlo.": "c14_tabular", "dynaq.": "c14_tabular",
+    "td_error.": "c14_tabular", "greedy_policy.": "c14_tabular",
+}
